@@ -318,7 +318,8 @@ def run(ctx, pid):
         f_mc = ex.submit(ctx.model_check, "LocalSync", "LocalSync_mc.cfg", name="tlc_mc", timeout=1800, workers=4,
                          defines=defines(ctx.pick(4, 5), "none"))
         # R: one script per explored (state, command)
-        f_emit = ex.submit(ctx.tlc, "LocalSync", "LocalSync_emit.cfg", name="tlc_emit", timeout=1800, workers=4, count=False,
+        # (one worker: breadth-first order, hence the printed histories, are the same in every run => --seed reproduces)
+        f_emit = ex.submit(ctx.tlc, "LocalSync", "LocalSync_emit.cfg", name="tlc_emit", timeout=1800, workers=1, count=False,
                            defines=defines(emit_depth, pid, ctx.pick(1, 7)))
         # design-level statement of the named deviation (finding C33-F1); informative only
         f_strict = ex.submit(ctx.tlc, "LocalSync", "LocalSync_strict.cfg", name="tlc_strict", timeout=900, workers=2,
